@@ -3,4 +3,6 @@ import ArroyProofs.Properties.C11
 import ArroyProofs.Properties.C11Real
 import ArroyProofs.Properties.C11Reported
 import ArroyProofs.Properties.C11Reported2
+import ArroyProofs.Properties.C11Oracle
+import ArroyProofs.Properties.C11OracleCosine
 #audit Arroy.C11
